@@ -156,6 +156,11 @@ pub const TEMPLATES: &[&str] = &[
     "return a : b < < number > > ( 1 )",
     "a . b : c < < number , string > > ( 1 , 's' )",
     "a : b < < T > > 's'",
+    // type pack arguments of an instantiation (refused or kept whole, never thinned)
+    "return f < < number , ... string > > ( )",
+    "return a : b < < ... string > > ( 1 )",
+    "return f < < T ... > > ( )",
+    "return f < < ( number , string ) > > ( )",
     // commas of function types with a variadic argument, and of generic parameter lists with several packs
     "local a : ( number , ... string ) -> ( ) = f",
     "local a : ( x : number , y : string , ... any ) -> ... any = f",
